@@ -5,6 +5,7 @@ import (
 	"fmt"
 	"sort"
 	"strings"
+	"sync"
 	"time"
 
 	p9p "github.com/frobnitzem/go-p9p"
@@ -42,7 +43,8 @@ type cliRun struct {
 	sess        p9p.Session
 	sessErr     error
 	calls       []*callResult
-	callersEnd  int
+	callersEnd  int // guarded by mu
+	mu          sync.Mutex
 	ncallers    int
 	wire        []wireReq
 	unanswered  map[p9p.Tag]int
@@ -86,7 +88,7 @@ func (r *cliRun) serverNegotiate() bool {
 // serverRead reads the next request, recording tag discipline. It returns
 // false when every caller has returned and nothing is left to read.
 func (r *cliRun) serverRead() (wireReq, bool) {
-	f, err := r.srv.ReadFrameOr(func() bool { return r.callersEnd == r.ncallers })
+	f, err := r.srv.ReadFrameOr(r.allEndedNR)
 	if err != nil || f == nil {
 		return wireReq{}, false
 	}
@@ -131,7 +133,9 @@ func (r *cliRun) call(ctx context.Context, res *callResult) {
 	if err != nil {
 		res.Err = err.Error()
 	}
-	vsched.Logf("call %d returned %q %q", res.ID, res.Data, res.Err)
+	if !vsched.RaceMode {
+		vsched.Logf("call %d returned %q %q", res.ID, res.Data, res.Err)
+	}
 }
 
 func ownResult(res *callResult) bool {
@@ -157,14 +161,12 @@ func c05Scenario(name string, ncallers, per int, abandon, sync bool) *explore.Sc
 					st.serverEnd = "negotiation failed"
 					return
 				}
-				var out []wireReq
+				l := &srvLoop{r: st.cliRunPtr()}
 				for {
 					// idle until there is something to do: a request to
 					// read, a reply to give, or nothing will come any more
-					vsched.WaitFor("server.idle", st.srvObj(), func() bool {
-						return st.srv.FrameReady() || len(out) > 0 || st.callersEnd == st.ncallers
-					})
-					opts := len(out)
+					vsched.WaitFor("server.idle", st.srvObj(), l.idle)
+					opts := len(l.out)
 					if st.srv.FrameReady() {
 						opts++
 					}
@@ -172,16 +174,16 @@ func c05Scenario(name string, ncallers, per int, abandon, sync bool) *explore.Sc
 						break
 					}
 					k := vsched.Choose("server.next", opts, false)
-					if k < len(out) {
-						st.serverReply(out[k])
-						out = append(out[:k], out[k+1:]...)
+					if k < len(l.out) {
+						st.serverReply(l.out[k])
+						l.out = append(l.out[:k], l.out[k+1:]...)
 						continue
 					}
 					w, ok := st.serverRead()
 					if !ok {
 						break
 					}
-					out = append(out, w)
+					l.out = append(l.out, w)
 				}
 				st.srv.Close()
 				st.serverEnd = "ok"
@@ -211,7 +213,7 @@ func c05Scenario(name string, ncallers, per int, abandon, sync bool) *explore.Sc
 						}
 						st.call(ctx, res)
 					}
-					st.callersEnd++
+					st.endCaller()
 					vsched.Yield("caller.end", st.srvObj())
 				})
 			}
@@ -221,7 +223,40 @@ func c05Scenario(name string, ncallers, per int, abandon, sync bool) *explore.Sc
 	}
 }
 
-func (r *cliRun) srvObj() uintptr { return r.srv.ReadObj() }
+func (r *cliRun) srvObj() uintptr    { return r.srv.ReadObj() }
+func (r *cliRun) cliRunPtr() *cliRun { return r }
+
+// endCaller / allEnded: the only harness state shared between caller tasks
+// and the server task, guarded by a real mutex so that race mode sees no
+// harness race.
+func (r *cliRun) endCaller() {
+	r.mu.Lock()
+	r.callersEnd++
+	r.mu.Unlock()
+}
+func (r *cliRun) allEnded() bool {
+	r.mu.Lock()
+	defer r.mu.Unlock()
+	return r.callersEnd == r.ncallers
+}
+
+// allEndedNR is for conditions evaluated by the scheduler (no lock, not
+// seen by the race detector).
+//
+//go:norace
+func (r *cliRun) allEndedNR() bool { return r.callersEnd == r.ncallers }
+
+// srvLoop holds the scripted server's pending replies so that its idle
+// condition can be a //go:norace method.
+type srvLoop struct {
+	r   *cliRun
+	out []wireReq
+}
+
+//go:norace
+func (l *srvLoop) idle() bool {
+	return l.r.srv.FrameReadyNR() || len(l.out) > 0 || l.r.callersEnd == l.r.ncallers
+}
 
 func c05Check(state any, e *vsched.Exec) (string, []explore.Finding) {
 	st := state.(*cliRun)
@@ -343,7 +378,7 @@ func c05WrapScenario() *explore.Scenario {
 				}
 				hcancel()
 				vsched.WaitFor("hung-returned", 0, func() bool { return hung.Returned })
-				st.callersEnd++
+				st.endCaller()
 				vsched.Yield("caller.end", st.srvObj())
 			})
 			return st
@@ -380,6 +415,18 @@ func c05(c *core.Ctx) {
 		plans = both(inter, 2, 5, 0)
 	}
 	runPlans(c, plans)
+	// race mode: the same harness bodies in race-detector workers
+	rb := 2
+	if !c.Quick() {
+		rb = 4
+	}
+	var raceScs []*explore.Scenario
+	for _, sc := range inter {
+		if sc.Name == "2x1" || sc.Name == "2x1-abandon" || sc.Name == "2x2-abandon" || (!c.Quick() && (sc.Name == "3x1" || sc.Name == "2x2")) {
+			raceScs = append(raceScs, explore.WithDelay(sc)) // delay bounding: the race build is slow
+		}
+	}
+	runRaceMode(c, raceScs, rb)
 	// (iii) the wrap execution (default schedule only)
 	wrap := scs[len(scs)-1]
 	e, outcome, findings := explore.RunDefault(wrap)
